@@ -9,6 +9,7 @@ RULE = ("For 24 shared values (every structure type; parsed from TLC-computed en
         "interleaved with package-level size lookups, under the Go race detector. Judged per event: no race report, every concurrent result "
         "equal to the sequential result, the value's full observation and the four package-level tables unchanged, and (verif hook) "
         "len == cap for the certificate's kind/len slices. Non-trivial = a shared value on which the goroutines ran.")
+RULE += (' Phase 0 parses the same bytes in n goroutines at once; a lock-step round (n fresh goroutines make the same call at the same moment, for every call, calls with arguments included) precedes the free-running phase; the queried value is compared field by field (reflect.DeepEqual, unexported fields included) with a fresh parse; really-verifying signed structures; distinct genuine/tampered values verified concurrently.')
 ASSUME = [common.TRUSTED, "the Go race detector's happens-before analysis (a race need not manifest as a wrong result to be reported)",
           "read-only = argument-free methods not named Set*/Add*/With*/Build; IsExpired (clock) is excluded from result comparison"]
 META = {
